@@ -1,8 +1,516 @@
-import Hidi
-namespace Hidi.Props.C08
-open Hidi
+/-
+  C08 — emulated keys: an axis that behaves like two keys.
 
-/-- placeholder obligation replaced by the real theorems below as they are proved -/
-theorem init_not_dead (cfg : Config) : (Dev.init cfg).dead = false := rfl
+  Model: `Dev.absKey`, `Dev.analogNoteOn`, `Dev.analogNoteOff`, `Dev.releaseAxis` (`Hidi/Engine.lean`).
+  `anaTr` tracks, per identifier (axis code, negative?), the (note, channel) that was switched on.
+  Thresholds are tested in the order `vk ≤ -1/2`, then `-c49 < vk ∧ vk < c49`, then `1/2 ≤ vk`;
+  anything else (the hysteresis bands) changes nothing.
+-/
+import Hidi
+import HidiProofs.AxisKeyLemmas
+namespace Hidi.Props.C08
+open Hidi Hidi.Spec Hidi.AxisKeyLemmas
+
+/-- the position the thresholds are applied to: an axis that cannot go negative is re-centred first -/
+abbrev vk (canNeg : Bool) (v0 : Rat) : Rat := if canNeg then v0 else fsub (fmul v0 2) 1
+
+/-! ### the four branches of `absKey` without the `let`s -/
+
+/-- first half of the negative branch: switch the negative key on unless unidirectional or already tracked -/
+def negOn (d : Dev) (a : Analog) (code : Code) : Dev × List Out :=
+  if a.bidir ∧ (alookup (code, true) d.anaTr).isNone then d.analogNoteOn (code, true) a.noteNeg a.chOffNeg else (d, [])
+
+/-- first half of the positive branch -/
+def posOn (d : Dev) (a : Analog) (code : Code) : Dev × List Out :=
+  if (alookup (code, false) d.anaTr).isNone then d.analogNoteOn (code, false) a.note a.chOff else (d, [])
+
+theorem absKey_neg (d : Dev) (a : Analog) (code : Code) (canNeg : Bool) (v0 : Rat) (h : vk canNeg v0 ≤ -1/2) :
+    d.absKey a code canNeg v0 =
+      (((negOn d a code).1.analogNoteOff (code, false)).1,
+       (negOn d a code).2 ++ ((negOn d a code).1.analogNoteOff (code, false)).2) := by
+  unfold Dev.absKey
+  simp only [vk] at h
+  simp only [if_pos h]
+  rfl
+
+theorem absKey_centre (d : Dev) (a : Analog) (code : Code) (canNeg : Bool) (v0 : Rat)
+    (hn : ¬ vk canNeg v0 ≤ -1/2) (h : -c49 < vk canNeg v0 ∧ vk canNeg v0 < c49) :
+    d.absKey a code canNeg v0 = d.releaseAxis code := by
+  unfold Dev.absKey
+  simp only [vk] at h hn
+  simp only [if_neg hn, if_pos h]
+  rfl
+
+theorem absKey_pos (d : Dev) (a : Analog) (code : Code) (canNeg : Bool) (v0 : Rat)
+    (hn : ¬ vk canNeg v0 ≤ -1/2) (h : 1/2 ≤ vk canNeg v0) :
+    d.absKey a code canNeg v0 =
+      (((posOn d a code).1.analogNoteOff (code, true)).1,
+       (posOn d a code).2 ++ ((posOn d a code).1.analogNoteOff (code, true)).2) := by
+  have hc : ¬ (-c49 < vk canNeg v0 ∧ vk canNeg v0 < c49) := by
+    rintro ⟨_, h2⟩
+    exact absurd (lt_of_lt_of_le h2 c49_le_half) (not_lt.mpr h)
+  unfold Dev.absKey
+  simp only [vk] at h hn hc
+  simp only [if_neg hn, if_neg hc, if_pos h]
+  rfl
+
+theorem absKey_band (d : Dev) (a : Analog) (code : Code) (canNeg : Bool) (v0 : Rat)
+    (hn : ¬ vk canNeg v0 ≤ -1/2) (hc : ¬ (-c49 < vk canNeg v0 ∧ vk canNeg v0 < c49)) (hp : ¬ 1/2 ≤ vk canNeg v0) :
+    d.absKey a code canNeg v0 = (d, []) := by
+  unfold Dev.absKey
+  simp only [vk] at hp hn hc
+  simp only [if_neg hn, if_neg hc, if_neg hp]
+
+/-! ### `negOn` / `posOn` -/
+
+theorem negOn_frame (d : Dev) (a : Analog) (code : Code) :
+    (negOn d a code).1 = { d with anaTr := (negOn d a code).1.anaTr } := by
+  unfold negOn; split
+  · exact on_frame _ _ _ _
+  · rfl
+
+theorem posOn_frame (d : Dev) (a : Analog) (code : Code) :
+    (posOn d a code).1 = { d with anaTr := (posOn d a code).1.anaTr } := by
+  unfold posOn; split
+  · exact on_frame _ _ _ _
+  · rfl
+
+theorem negOn_lookup_ne (d : Dev) (a : Analog) (code : Code) {id : Code × Bool} (h : id ≠ (code, true)) :
+    alookup id (negOn d a code).1.anaTr = alookup id d.anaTr := by
+  unfold negOn; split
+  · exact on_lookup_ne d h _ _
+  · rfl
+
+theorem posOn_lookup_ne (d : Dev) (a : Analog) (code : Code) {id : Code × Bool} (h : id ≠ (code, false)) :
+    alookup id (posOn d a code).1.anaTr = alookup id d.anaTr := by
+  unfold posOn; split
+  · exact on_lookup_ne d h _ _
+  · rfl
+
+theorem negOn_out_mem (d : Dev) (a : Analog) (code : Code) (o : Out) (h : o ∈ (negOn d a code).2) :
+    ∃ ch n, o = noteEvent stNoteOn ch n 64 := by
+  unfold negOn at h; split at h
+  · exact on_out_mem _ _ _ _ _ h
+  · simp at h
+
+theorem posOn_out_mem (d : Dev) (a : Analog) (code : Code) (o : Out) (h : o ∈ (posOn d a code).2) :
+    ∃ ch n, o = noteEvent stNoteOn ch n 64 := by
+  unfold posOn at h; split at h
+  · exact on_out_mem _ _ _ _ _ h
+  · simp at h
+
+theorem posOn_tracked (d : Dev) (a : Analog) (code : Code) (p : Nat × Nat)
+    (h : alookup (code, false) d.anaTr = some p) : posOn d a code = (d, []) := by
+  unfold posOn; simp [h]
+
+theorem negOn_tracked (d : Dev) (a : Analog) (code : Code) (p : Nat × Nat)
+    (h : alookup (code, true) d.anaTr = some p) : negOn d a code = (d, []) := by
+  unfold negOn; simp [h]
+
+theorem negOn_unidir (d : Dev) (a : Analog) (code : Code) (h : a.bidir = false) : negOn d a code = (d, []) := by
+  unfold negOn; simp [h]
+
+theorem posOn_fresh (d : Dev) (a : Analog) (code : Code) (h : alookup (code, false) d.anaTr = none) :
+    posOn d a code = d.analogNoteOn (code, false) a.note a.chOff := by
+  unfold posOn; simp [h]
+
+theorem negOn_fresh (d : Dev) (a : Analog) (code : Code) (hb : a.bidir = true)
+    (h : alookup (code, true) d.anaTr = none) :
+    negOn d a code = d.analogNoteOn (code, true) a.noteNeg a.chOffNeg := by
+  unfold negOn; simp [h, hb]
+
+/-- a Note Off of the emulation is no Note On with velocity 64 -/
+theorem off_no_on64 (d : Dev) (id : Code × Bool) : ∀ o ∈ (d.analogNoteOff id).2, ∀ ch n, o ≠ noteEvent stNoteOn ch n 64 := by
+  intro o ho ch n
+  obtain ⟨n', ch', _, rfl⟩ := off_out_mem d id o ho
+  exact noteOff_ne_noteOn _ _ _ _ _ (by decide)
+
+/-! ### the theorems -/
+
+/-- positive deflection: the negative identifier is not tracked afterwards; the positive identifier, if it was not
+    tracked, becomes tracked with the transposed note exactly when that note is in 0..127 (with the Note On in the
+    output); if it was tracked it stays as it was and there is no second Note On (once per excursion) -/
+theorem C08_pos (d : Dev) (a : Analog) (code : Code) (canNeg : Bool) (v0 : Rat)
+    (h : 1/2 ≤ vk canNeg v0) (hn : ¬ vk canNeg v0 ≤ -1/2) :
+    let r := d.absKey a code canNeg v0
+    (alookup (code, true) r.1.anaTr = none) ∧
+    (alookup (code, false) d.anaTr = none → 0 ≤ d.transposed a.note → d.transposed a.note ≤ 127 →
+        alookup (code, false) r.1.anaTr = some ((d.transposed a.note).toNat, chanOf d.channel a.chOff) ∧
+        noteEvent stNoteOn (chanOf d.channel a.chOff) (d.transposed a.note).toNat 64 ∈ r.2) ∧
+    (alookup (code, false) d.anaTr = none → (d.transposed a.note < 0 ∨ 127 < d.transposed a.note) →
+        alookup (code, false) r.1.anaTr = none ∧ ∀ o ∈ r.2, ∀ ch n, o ≠ noteEvent stNoteOn ch n 64) ∧
+    (∀ p, alookup (code, false) d.anaTr = some p →
+        alookup (code, false) r.1.anaTr = some p ∧ ∀ o ∈ r.2, ∀ ch n, o ≠ noteEvent stNoteOn ch n 64) := by
+  intro r
+  have hr : r = _ := absKey_pos d a code canNeg v0 hn h
+  rw [hr]
+  refine ⟨off_lookup_self _ _, ?_, ?_, ?_⟩
+  · intro hf h0 h1
+    have ho := on_in_range d (code, false) a.note a.chOff h0 h1
+    simp only [off_lookup_ne _ (pos_ne_neg code), posOn_fresh d a code hf, ho.1, ho.2, true_and]
+    simp
+  · intro hf hr
+    simp only [off_lookup_ne _ (pos_ne_neg code), posOn_fresh d a code hf, on_out_of_range d _ _ _ hr, hf,
+      List.nil_append, true_and]
+    exact off_no_on64 _ _
+  · intro p hp
+    simp only [off_lookup_ne _ (pos_ne_neg code), posOn_tracked d a code p hp, hp, List.nil_append, true_and]
+    exact off_no_on64 _ _
+
+/-- negative deflection of a bidirectional entry: symmetric, with `a.noteNeg`, `a.chOffNeg` -/
+theorem C08_neg (d : Dev) (a : Analog) (code : Code) (canNeg : Bool) (v0 : Rat)
+    (h : vk canNeg v0 ≤ -1/2) (hb : a.bidir = true) :
+    let r := d.absKey a code canNeg v0
+    (alookup (code, false) r.1.anaTr = none) ∧
+    (alookup (code, true) d.anaTr = none → 0 ≤ d.transposed a.noteNeg → d.transposed a.noteNeg ≤ 127 →
+        alookup (code, true) r.1.anaTr = some ((d.transposed a.noteNeg).toNat, chanOf d.channel a.chOffNeg) ∧
+        noteEvent stNoteOn (chanOf d.channel a.chOffNeg) (d.transposed a.noteNeg).toNat 64 ∈ r.2) ∧
+    (alookup (code, true) d.anaTr = none → (d.transposed a.noteNeg < 0 ∨ 127 < d.transposed a.noteNeg) →
+        alookup (code, true) r.1.anaTr = none ∧ ∀ o ∈ r.2, ∀ ch n, o ≠ noteEvent stNoteOn ch n 64) ∧
+    (∀ p, alookup (code, true) d.anaTr = some p →
+        alookup (code, true) r.1.anaTr = some p ∧ ∀ o ∈ r.2, ∀ ch n, o ≠ noteEvent stNoteOn ch n 64) := by
+  intro r
+  have hr : r = _ := absKey_neg d a code canNeg v0 h
+  rw [hr]
+  refine ⟨off_lookup_self _ _, ?_, ?_, ?_⟩
+  · intro hf h0 h1
+    have ho := on_in_range d (code, true) a.noteNeg a.chOffNeg h0 h1
+    simp only [off_lookup_ne _ (neg_ne_pos code), negOn_fresh d a code hb hf, ho.1, ho.2, true_and]
+    simp
+  · intro hf hr
+    simp only [off_lookup_ne _ (neg_ne_pos code), negOn_fresh d a code hb hf, on_out_of_range d _ _ _ hr, hf,
+      List.nil_append, true_and]
+    exact off_no_on64 _ _
+  · intro p hp
+    simp only [off_lookup_ne _ (neg_ne_pos code), negOn_tracked d a code p hp, hp, List.nil_append, true_and]
+    exact off_no_on64 _ _
+
+/-- negative deflection of a unidirectional entry is silent: the event is exactly the release of the positive
+    identifier — no Note On (with a velocity other than 0) at all, the negative identifier is left untouched
+    and the positive one is released -/
+theorem C08_silent (d : Dev) (a : Analog) (code : Code) (canNeg : Bool) (v0 : Rat)
+    (h : vk canNeg v0 ≤ -1/2) (hb : a.bidir = false) :
+    let r := d.absKey a code canNeg v0
+    r = d.analogNoteOff (code, false) ∧
+    (∀ o ∈ r.2, ∀ ch n v, v ≠ 0 → o ≠ noteEvent stNoteOn ch n v) ∧
+    alookup (code, true) r.1.anaTr = alookup (code, true) d.anaTr ∧
+    alookup (code, false) r.1.anaTr = none := by
+  intro r
+  have hr : r = d.analogNoteOff (code, false) := by
+    show d.absKey a code canNeg v0 = _
+    rw [absKey_neg d a code canNeg v0 h, negOn_unidir d a code hb]
+    simp
+  rw [hr]
+  refine ⟨rfl, ?_, off_lookup_ne _ (neg_ne_pos code), off_lookup_self _ _⟩
+  intro o ho ch n v hv
+  obtain ⟨n', ch', _, rfl⟩ := off_out_mem d _ o ho
+  exact noteOff_ne_noteOn _ _ _ _ _ hv
+
+/-- return towards centre: the event is `releaseAxis`; both identifiers are released -/
+theorem C08_centre (d : Dev) (a : Analog) (code : Code) (canNeg : Bool) (v0 : Rat)
+    (h : -c49 < vk canNeg v0 ∧ vk canNeg v0 < c49) (hn : ¬ vk canNeg v0 ≤ -1/2) :
+    let r := d.absKey a code canNeg v0
+    alookup (code, false) r.1.anaTr = none ∧ alookup (code, true) r.1.anaTr = none ∧ r = d.releaseAxis code := by
+  intro r
+  have hr : r = d.releaseAxis code := absKey_centre d a code canNeg v0 hn h
+  rw [hr, releaseAxis_eq]
+  refine ⟨?_, off_lookup_self _ _, rfl⟩
+  simp only
+  rw [off_lookup_ne _ (pos_ne_neg code), off_lookup_self]
+
+/-- the centre condition alone implies the negative branch is not taken (`c49 ≤ 1/2`) -/
+theorem centre_not_neg (canNeg : Bool) (v0 : Rat) (h : -c49 < vk canNeg v0 ∧ vk canNeg v0 < c49) :
+    ¬ vk canNeg v0 ≤ -1/2 := by
+  intro hn
+  have := c49_le_half
+  have h1 := h.1
+  linarith
+
+/-- hysteresis bands `[c49, 1/2)` and `(-1/2, -c49]`: nothing happens -/
+theorem C08_band (d : Dev) (a : Analog) (code : Code) (canNeg : Bool) (v0 : Rat)
+    (h : (c49 ≤ vk canNeg v0 ∧ vk canNeg v0 < 1/2) ∨ (-1/2 < vk canNeg v0 ∧ vk canNeg v0 ≤ -c49)) :
+    d.absKey a code canNeg v0 = (d, []) := by
+  have hp := c49_pos
+  apply absKey_band
+  · rcases h with h | h <;> intro hn <;> linarith [h.1, h.2]
+  · rcases h with h | h <;> rintro ⟨h1, h2⟩ <;> linarith [h.1, h.2]
+  · rcases h with h | h <;> intro hn <;> linarith [h.1, h.2]
+
+/-- pairing: every message the emulation emits is a Note On (velocity 64), or the Note Off of exactly what the
+    tracker held for one of the two identifiers before the event -/
+theorem C08_pairing (d : Dev) (a : Analog) (code : Code) (canNeg : Bool) (v0 : Rat) :
+    ∀ o ∈ (d.absKey a code canNeg v0).2, (∃ ch n, o = noteEvent stNoteOn ch n 64) ∨
+      (∃ id ∈ [((code, false) : Code × Bool), (code, true)], ∃ n ch,
+        alookup id d.anaTr = some (n, ch) ∧ o = noteEvent stNoteOff ch n 0) := by
+  intro o ho
+  by_cases hn : vk canNeg v0 ≤ -1/2
+  · rw [absKey_neg d a code canNeg v0 hn] at ho
+    simp only [List.mem_append] at ho
+    rcases ho with ho | ho
+    · exact Or.inl (negOn_out_mem d a code o ho)
+    · obtain ⟨n, ch, h1, h2⟩ := off_out_mem _ _ _ ho
+      rw [negOn_lookup_ne d a code (pos_ne_neg code)] at h1
+      exact Or.inr ⟨_, by simp, n, ch, h1, h2⟩
+  · by_cases hc : -c49 < vk canNeg v0 ∧ vk canNeg v0 < c49
+    · rw [absKey_centre d a code canNeg v0 hn hc] at ho
+      exact Or.inr (releaseAxis_out_mem d code o ho)
+    · by_cases hp : 1/2 ≤ vk canNeg v0
+      · rw [absKey_pos d a code canNeg v0 hn hp] at ho
+        simp only [List.mem_append] at ho
+        rcases ho with ho | ho
+        · exact Or.inl (posOn_out_mem d a code o ho)
+        · obtain ⟨n, ch, h1, h2⟩ := off_out_mem _ _ _ ho
+          rw [posOn_lookup_ne d a code (neg_ne_pos code)] at h1
+          exact Or.inr ⟨_, by simp, n, ch, h1, h2⟩
+      · rw [absKey_band d a code canNeg v0 hn hc hp] at ho
+        simp at ho
+
+/-- never both directions at once -/
+def NotBoth (code : Code) (d : Dev) : Prop :=
+  ¬ (alookup (code, false) d.anaTr ≠ none ∧ alookup (code, true) d.anaTr ≠ none)
+
+theorem C08_not_both_init (code : Code) (cfg : Config) : NotBoth code (Dev.init cfg) := by
+  intro h; exact h.1 rfl
+
+/-- `NotBoth` is an invariant of `absKey`: outside the hysteresis bands one of the two identifiers is released,
+    inside nothing changes -/
+theorem C08_not_both (d : Dev) (a : Analog) (code : Code) (canNeg : Bool) (v0 : Rat) (hinv : NotBoth code d) :
+    NotBoth code (d.absKey a code canNeg v0).1 := by
+  by_cases hn : vk canNeg v0 ≤ -1/2
+  · rw [absKey_neg d a code canNeg v0 hn]
+    intro h; exact h.1 (off_lookup_self _ _)
+  · by_cases hc : -c49 < vk canNeg v0 ∧ vk canNeg v0 < c49
+    · intro h; exact h.2 (C08_centre d a code canNeg v0 hc hn).2.1
+    · by_cases hp : 1/2 ≤ vk canNeg v0
+      · rw [absKey_pos d a code canNeg v0 hn hp]
+        intro h; exact h.2 (off_lookup_self _ _)
+      · rw [absKey_band d a code canNeg v0 hn hc hp]; exact hinv
+
+/-- outside the hysteresis bands `NotBoth` holds after the event whatever was tracked before -/
+theorem C08_not_both_outside (d : Dev) (a : Analog) (code : Code) (canNeg : Bool) (v0 : Rat)
+    (h : vk canNeg v0 ≤ -1/2 ∨ (-c49 < vk canNeg v0 ∧ vk canNeg v0 < c49) ∨ 1/2 ≤ vk canNeg v0) :
+    NotBoth code (d.absKey a code canNeg v0).1 := by
+  by_cases hn : vk canNeg v0 ≤ -1/2
+  · rw [absKey_neg d a code canNeg v0 hn]
+    intro h; exact h.1 (off_lookup_self _ _)
+  · by_cases hc : -c49 < vk canNeg v0 ∧ vk canNeg v0 < c49
+    · intro h; exact h.2 (C08_centre d a code canNeg v0 hc hn).2.1
+    · have hp : 1/2 ≤ vk canNeg v0 := by
+        rcases h with h | h | h
+        · exact absurd h hn
+        · exact absurd h hc
+        · exact h
+      rw [absKey_pos d a code canNeg v0 hn hp]
+      intro h; exact h.2 (off_lookup_self _ _)
+
+/-- the emulation only ever touches its own two identifiers, and never changes anything else of the device -/
+theorem C08_frame_strong (d : Dev) (a : Analog) (code : Code) (canNeg : Bool) (v0 : Rat) :
+    (d.absKey a code canNeg v0).1 = { d with anaTr := (d.absKey a code canNeg v0).1.anaTr } ∧
+    ∀ id, id ≠ (code, false) → id ≠ (code, true) →
+      alookup id (d.absKey a code canNeg v0).1.anaTr = alookup id d.anaTr := by
+  by_cases hn : vk canNeg v0 ≤ -1/2
+  · rw [absKey_neg d a code canNeg v0 hn]
+    constructor
+    · simp only
+      rw [off_frame, negOn_frame]
+    · intro id h1 h2
+      rw [off_lookup_ne _ h1, negOn_lookup_ne d a code h2]
+  · by_cases hc : -c49 < vk canNeg v0 ∧ vk canNeg v0 < c49
+    · rw [absKey_centre d a code canNeg v0 hn hc]
+      constructor
+      · exact releaseAxis_frame d code
+      · intro id h1 h2
+        rw [releaseAxis_eq]
+        simp only
+        rw [off_lookup_ne _ h2, off_lookup_ne _ h1]
+    · by_cases hp : 1/2 ≤ vk canNeg v0
+      · rw [absKey_pos d a code canNeg v0 hn hp]
+        constructor
+        · simp only
+          rw [off_frame, posOn_frame]
+        · intro id h1 h2
+          rw [off_lookup_ne _ h2, posOn_lookup_ne d a code h1]
+      · rw [absKey_band d a code canNeg v0 hn hc hp]
+        exact ⟨rfl, fun _ _ _ => rfl⟩
+
+/-- the emulation only ever touches its own two identifiers, and never changes
+    octave/semitone/channel/mapping/noteTr/counter -/
+theorem C08_frame (d : Dev) (a : Analog) (code : Code) (canNeg : Bool) (v0 : Rat) :
+    let r := d.absKey a code canNeg v0
+    r.1.octave = d.octave ∧ r.1.semitone = d.semitone ∧ r.1.channel = d.channel ∧ r.1.mapping = d.mapping ∧
+    r.1.noteTr = d.noteTr ∧ r.1.counter = d.counter ∧
+    ∀ id, id ≠ (code, false) → id ≠ (code, true) → alookup id r.1.anaTr = alookup id d.anaTr := by
+  intro r
+  obtain ⟨h1, h2⟩ := C08_frame_strong d a code canNeg v0
+  refine ⟨?_, ?_, ?_, ?_, ?_, ?_, h2⟩ <;> (simp only [r]; rw [h1])
+
+/-- `releaseAxis` (mapping changed under a deflected axis, or return to centre) releases both identifiers, with
+    exactly their tracked Note Offs (positive first), and touches nothing else -/
+theorem C08_release_axis (d : Dev) (code : Code) :
+    alookup (code, false) (d.releaseAxis code).1.anaTr = none ∧
+    alookup (code, true) (d.releaseAxis code).1.anaTr = none ∧
+    (∀ o ∈ (d.releaseAxis code).2, ∃ id ∈ [((code, false) : Code × Bool), (code, true)], ∃ n ch,
+        alookup id d.anaTr = some (n, ch) ∧ o = noteEvent stNoteOff ch n 0) ∧
+    (d.releaseAxis code).2 =
+      (match alookup (code, false) d.anaTr with
+       | some (n, ch) => [noteEvent stNoteOff ch n 0]
+       | none => []) ++
+      (match alookup (code, true) d.anaTr with
+       | some (n, ch) => [noteEvent stNoteOff ch n 0]
+       | none => []) ∧
+    (d.releaseAxis code).1 = { d with anaTr := (d.releaseAxis code).1.anaTr } ∧
+    (∀ id, id ≠ (code, false) → id ≠ (code, true) →
+      alookup id (d.releaseAxis code).1.anaTr = alookup id d.anaTr) := by
+  refine ⟨?_, ?_, releaseAxis_out_mem d code, releaseAxis_out d code, releaseAxis_frame d code, ?_⟩
+  · rw [releaseAxis_eq]; simp only
+    rw [off_lookup_ne _ (pos_ne_neg code), off_lookup_self]
+  · rw [releaseAxis_eq]; exact off_lookup_self _ _
+  · intro id h1 h2
+    rw [releaseAxis_eq]; simp only
+    rw [off_lookup_ne _ h2, off_lookup_ne _ h1]
+
+/-! ### in the vocabulary of the receiver -/
+
+/-- everything the tracker holds is a real (note, channel) -/
+def TrWF (d : Dev) : Prop := ∀ id n ch, alookup id d.anaTr = some (n, ch) → n ≤ 127 ∧ ch < 16
+
+theorem C08_wf_init (cfg : Config) : TrWF (Dev.init cfg) := by
+  intro id n ch h; simp [Dev.init, alookup] at h
+
+theorem off_wf (d : Dev) (id : Code × Bool) (h : TrWF d) : TrWF (d.analogNoteOff id).1 :=
+  fun id' n ch hl => h id' n ch (off_lookup_some d id id' _ hl)
+
+theorem on_wf (d : Dev) (id : Code × Bool) (note off : Nat) (h : TrWF d) : TrWF (d.analogNoteOn id note off).1 := by
+  intro id' n ch hl
+  rcases on_lookup_some d id id' note off n ch hl with h1 | h1
+  · exact h id' n ch h1
+  · exact h1
+
+theorem C08_wf_release_axis (d : Dev) (code : Code) (h : TrWF d) : TrWF (d.releaseAxis code).1 := by
+  rw [releaseAxis_eq]; exact off_wf _ _ (off_wf _ _ h)
+
+/-- the tracker only ever holds real (note, channel) pairs -/
+theorem C08_wf (d : Dev) (a : Analog) (code : Code) (canNeg : Bool) (v0 : Rat) (h : TrWF d) :
+    TrWF (d.absKey a code canNeg v0).1 := by
+  by_cases hn : vk canNeg v0 ≤ -1/2
+  · rw [absKey_neg d a code canNeg v0 hn]
+    apply off_wf
+    unfold negOn; split
+    · exact on_wf _ _ _ _ h
+    · exact h
+  · by_cases hc : -c49 < vk canNeg v0 ∧ vk canNeg v0 < c49
+    · rw [absKey_centre d a code canNeg v0 hn hc]; exact C08_wf_release_axis d code h
+    · by_cases hp : 1/2 ≤ vk canNeg v0
+      · rw [absKey_pos d a code canNeg v0 hn hp]
+        apply off_wf
+        unfold posOn; split
+        · exact on_wf _ _ _ _ h
+        · exact h
+      · rw [absKey_band d a code canNeg v0 hn hc hp]; exact h
+
+/-- pairing, as the receiver sees it: every message of the emulation is `noteOn64` on a real channel with a real
+    note, or the `noteOffMsg` of exactly what the tracker held for one of the two identifiers -/
+theorem C08_pairing_recv (d : Dev) (a : Analog) (code : Code) (canNeg : Bool) (v0 : Rat) (hwf : TrWF d) :
+    ∀ o ∈ (d.absKey a code canNeg v0).2, (∃ ch n, ch < 16 ∧ n ≤ 127 ∧ o = noteOn64 ch n) ∨
+      (∃ id ∈ [((code, false) : Code × Bool), (code, true)], ∃ n ch,
+        alookup id d.anaTr = some (n, ch) ∧ o = noteOffMsg ch n) := by
+  have offCase : ∀ o, (∃ id ∈ [((code, false) : Code × Bool), (code, true)], ∃ n ch,
+        alookup id d.anaTr = some (n, ch) ∧ o = noteEvent stNoteOff ch n 0) →
+      (∃ id ∈ [((code, false) : Code × Bool), (code, true)], ∃ n ch,
+        alookup id d.anaTr = some (n, ch) ∧ o = noteOffMsg ch n) := by
+    rintro o ⟨id, hid, n, ch, h1, h2⟩
+    exact ⟨id, hid, n, ch, h1, by rw [h2, noteOff_eq_noteOffMsg (hwf id n ch h1).2]⟩
+  have onCase : ∀ o, (∃ ch n, ch < 16 ∧ n ≤ 127 ∧ o = noteEvent stNoteOn ch n 64) →
+      (∃ ch n, ch < 16 ∧ n ≤ 127 ∧ o = noteOn64 ch n) := by
+    rintro o ⟨ch, n, hc, hn, rfl⟩
+    exact ⟨ch, n, hc, hn, noteOn_eq_noteOn64 hc n⟩
+  intro o ho
+  by_cases hn : vk canNeg v0 ≤ -1/2
+  · rw [absKey_neg d a code canNeg v0 hn] at ho
+    simp only [List.mem_append] at ho
+    rcases ho with ho | ho
+    · left; apply onCase
+      unfold negOn at ho; split at ho
+      · exact on_out_mem' _ _ _ _ _ ho
+      · simp at ho
+    · obtain ⟨n, ch, h1, h2⟩ := off_out_mem _ _ _ ho
+      rw [negOn_lookup_ne d a code (pos_ne_neg code)] at h1
+      exact Or.inr (offCase o ⟨_, by simp, n, ch, h1, h2⟩)
+  · by_cases hc : -c49 < vk canNeg v0 ∧ vk canNeg v0 < c49
+    · rw [absKey_centre d a code canNeg v0 hn hc] at ho
+      exact Or.inr (offCase o (releaseAxis_out_mem d code o ho))
+    · by_cases hp : 1/2 ≤ vk canNeg v0
+      · rw [absKey_pos d a code canNeg v0 hn hp] at ho
+        simp only [List.mem_append] at ho
+        rcases ho with ho | ho
+        · left; apply onCase
+          unfold posOn at ho; split at ho
+          · exact on_out_mem' _ _ _ _ _ ho
+          · simp at ho
+        · obtain ⟨n, ch, h1, h2⟩ := off_out_mem _ _ _ ho
+          rw [posOn_lookup_ne d a code (neg_ne_pos code)] at h1
+          exact Or.inr (offCase o ⟨_, by simp, n, ch, h1, h2⟩)
+      · rw [absKey_band d a code canNeg v0 hn hc hp] at ho
+        simp at ho
+
+/-- at the receiver: a fresh positive deflection with an in-range note, nothing held for the negative identifier:
+    the event is exactly one Note On and the note sounds afterwards -/
+theorem C08_pos_sounds (d : Dev) (a : Analog) (code : Code) (canNeg : Bool) (v0 : Rat)
+    (h : 1/2 ≤ vk canNeg v0) (hn : ¬ vk canNeg v0 ≤ -1/2)
+    (hf : alookup (code, false) d.anaTr = none) (hg : alookup (code, true) d.anaTr = none)
+    (h0 : 0 ≤ d.transposed a.note) (h1 : d.transposed a.note ≤ 127) (s : List (Nat × Nat)) :
+    (d.absKey a code canNeg v0).2 = [noteOn64 (chanOf d.channel a.chOff) (d.transposed a.note).toNat] ∧
+    (chanOf d.channel a.chOff, (d.transposed a.note).toNat) ∈ sounding s (d.absKey a code canNeg v0).2 := by
+  have ho := on_in_range d (code, false) a.note a.chOff h0 h1
+  have hout : (d.absKey a code canNeg v0).2 =
+      [noteEvent stNoteOn (chanOf d.channel a.chOff) (d.transposed a.note).toNat 64] := by
+    rw [absKey_pos d a code canNeg v0 hn h]
+    simp only [posOn_fresh d a code hf, ho.2, off_out]
+    rw [on_lookup_ne d (neg_ne_pos code), hg]
+    rfl
+  constructor
+  · rw [hout, noteOn_eq_noteOn64 (chanOf_lt _ _)]
+  · rw [hout]
+    simp only [sounding, List.foldl_cons, List.foldl_nil, recv_noteOn64 (chanOf_lt _ _), mem_sinsert, true_or]
+
+/-! ### non-vacuity -/
+
+private def cfg0 : Config :=
+  { maps := [], actions := [], exitSeq := [], mode := .off, defOct := 0, defSemi := 0, defCh := 1,
+    defMap := 0, vel := 64, axes := [] }
+private def a0 : Analog :=
+  { kind := .key, cc := 0, ccNeg := 0, note := 60, noteNeg := 59, chOff := 0, chOffNeg := 0,
+    act := .none, actNeg := .none, flip := false, bidir := true, dzCenter := false }
+
+/-- the hypotheses of `C08_pos` are satisfiable: full positive deflection (`v0 = 1`) of a fresh device tracks
+    (60, channel 0) for the positive identifier and sends its Note On -/
+example : alookup (3, false) ((Dev.init cfg0).absKey a0 3 true 1).1.anaTr = some (60, 0) ∧
+    noteOn64 0 60 ∈ ((Dev.init cfg0).absKey a0 3 true 1).2 := by
+  have h := (C08_pos (Dev.init cfg0) a0 3 true 1 (by norm_num [vk]) (by norm_num [vk])).2.1 rfl (by decide) (by decide)
+  have e1 : ((Dev.init cfg0).transposed a0.note).toNat = 60 := by decide
+  have e2 : chanOf (Dev.init cfg0).channel a0.chOff = 0 := by decide
+  rw [e1, e2, noteOn_eq_noteOn64 (by decide)] at h
+  exact h
+
+/-- the same by evaluation of the model in the kernel (no `native_decide`) -/
+example : ((Dev.init cfg0).absKey a0 3 true 1).1.anaTr = [((3, false), (60, 0))] ∧
+    ((Dev.init cfg0).absKey a0 3 true 1).2 = [noteOn64 0 60] := by decide +kernel
+
+/-- full negative deflection then full positive deflection (no event near the centre in between): the negative key
+    is released and the positive one pressed in the same event -/
+example : (((Dev.init cfg0).absKey a0 3 true (-1)).1.absKey a0 3 true 1).2 = [noteOn64 0 60, noteOffMsg 0 59] ∧
+    (((Dev.init cfg0).absKey a0 3 true (-1)).1.absKey a0 3 true 1).1.anaTr = [((3, false), (60, 0))] := by
+  decide +kernel
+
+/-- OBSERVATION (not a property of C08 as listed, recorded because the proofs expose it): in the positive branch the
+    Note On precedes the Note Off of the negative identifier.  If both directions are configured with the SAME note
+    and channel, a direct crossing emits Note On n, Note Off n — the receiver ends silent while the tracker holds n. -/
+example :
+    let a1 : Analog := { a0 with noteNeg := 60 }
+    let d1 := ((Dev.init cfg0).absKey a1 3 true (-1)).1
+    (d1.absKey a1 3 true 1).2 = [noteOn64 0 60, noteOffMsg 0 60] ∧
+    sounding [(0, 60)] (d1.absKey a1 3 true 1).2 = [] ∧
+    (d1.absKey a1 3 true 1).1.anaTr = [((3, false), (60, 0))] := by
+  decide +kernel
 
 end Hidi.Props.C08
